@@ -80,7 +80,17 @@ fn trace(rng: &mut Rng, depth: usize, top: bool) -> TTrace {
             exception = Some(throwable(rng));
         }
     }
-    let cause = if depth > 0 { Some(Box::new(trace(rng, depth - 1, false))) } else { None };
+    let cause = if depth > 0 {
+        let mut c = trace(rng, depth - 1, false);
+        // as in real Java traces, a cause often ends in the same frames as the trace enclosing it
+        if !frames.is_empty() && rng.chance(1, 3) {
+            let k = 1 + rng.below(frames.len().min(4));
+            c.frames.extend(frames[frames.len() - k..].iter().cloned());
+        }
+        Some(Box::new(c))
+    } else {
+        None
+    };
     TTrace { exception, frames, cause }
 }
 
@@ -99,6 +109,9 @@ pub fn run(ctx: &Ctx, rep: &mut Reporter) {
             rep.count("evaluations", 1);
             rep.count("traces", 1);
             rep.count("frames_roundtripped", count_frames(&t));
+            if shares_tail(&t) {
+                rep.count("traces_where_a_cause_shares_ge2_trailing_frames_with_its_parent", 1);
+            }
             if t.depth() >= 1 && has_delim_message(&t) {
                 rep.count("traces_depth_ge1_with_delimiter_message", 1);
                 rep.distinct(Fp::new().str(&printed).get());
@@ -165,4 +178,14 @@ fn count_frames(t: &TTrace) -> u64 {
 fn has_delim_message(t: &TTrace) -> bool {
     let m = t.exception.as_ref().and_then(|e| e.message.as_deref()).map_or(false, |m| m.contains(": ") || m.contains("at "));
     m || t.cause.as_ref().map_or(false, |c| has_delim_message(c))
+}
+
+fn shares_tail(t: &TTrace) -> bool {
+    match &t.cause {
+        Some(c) => {
+            let n = t.frames.iter().rev().zip(c.frames.iter().rev()).take_while(|(a, b)| a == b).count();
+            n >= 2 || shares_tail(c)
+        }
+        None => false,
+    }
 }
